@@ -1072,8 +1072,8 @@ def _region_fresh_names(case):
     s, t, plants = case["s"], case["t"], case.get("plants", [])
     for i, p in enumerate(plants):
         if p.get("placement") in ("if", "loop") and _creates_values(p, s, t):
-            if any(_creates_values(q, s, t) and q.get("placement") in ("main", "function") for q in plants[i + 1:]):
-                return True
+            if any(_creates_values(q, s, t) and q.get("placement") in ("main", "function") for j, q in enumerate(plants) if j != i):
+                return True  # (fresh names of the two conversions collide whichever of them comes first in the graph)
             try:
                 model = optcommon.model_from_json(case["model"])
             except Exception:  # noqa: BLE001
